@@ -3,7 +3,7 @@ from __future__ import annotations
 
 from .. import core, schema_h, translate_schema
 from ..runner import Suite
-from ..schema_suites import ModelCases, gen, lossless
+from ..schema_suites import ModelCases, attr_name_members, gen, lossless
 
 MANIFEST = dict(
     text="Lean 4 theorems about the executable model of validate + model_dump(by_alias, exclude_none) over the regenerated field tables of every McpPydanticBase subclass: for every conforming wire value (any depth, any size) every member of the input is preserved exactly under its wire name, unknown members included, and every added member is a declared default; plus a decide-checked table theorem over every .model_dump( / .model_dump_json( call found in src/ by the AST translator: a call whose result can reach the wire and whose receiver class reaches an aliased field passes by_alias=True. Correspondence on both backends and the Lean model, and a dynamic cross-check that executes the library-side serialisers (elicitation request builder, tool_result_to_dict, content_to_dict, roots / sampling / completion / initialize builders) with every alias populated.",
@@ -51,6 +51,8 @@ class Lossless(ModelCases):
             r = lossless(S, t, case["wire"], b["dump"])
             if r is not None:
                 key, what = r
+                if attr_name_members(case) == "both":
+                    key = "alias-and-attribute-name-members"
                 return (key, f"{case['cls']} under the {side} backend: {what}", {"preserved": case["wire"]})
         return None
 
